@@ -12,6 +12,7 @@ package cryptoauth
 import (
 	"bytes"
 	"context"
+	"crypto/ecdsa"
 	"crypto/elliptic"
 	"crypto/sha256"
 	"encoding/hex"
@@ -73,6 +74,11 @@ type c17Case struct {
 	Msg    []byte
 	Ops    []c17Op
 	Raw    []byte // mode raw
+	// mode "secp-s": a genuine secp256r1 signature constructed for a chosen s (Seed = nonce seed):
+	// s = c17SecpSTargets[STarget] + SDelta, or N/2 + 1 + (SRand mod (2^255 - N/2 - 1)) for STarget == -1
+	STarget int
+	SDelta  int
+	SRand   []byte
 }
 
 var c17AlgKinds = [3]int{9, 10, 12} // number of algebraic op kinds per scheme
@@ -96,7 +102,22 @@ func c17MsgGen() *rapid.Generator[[]byte] {
 func c17Gen(rt *rapid.T) c17Case {
 	c := c17Case{Scheme: rapid.SampledFrom([]int{0, 0, 0, 1, 1, 1, 2, 2}).Draw(rt, "scheme")}
 	sc := c17Schemes[c.Scheme]
-	if rapid.IntRange(0, 5).Draw(rt, "mode") == 0 {
+	// (rapid favours small indices: "sig" first keeps it the bulk of the cases)
+	mode := rapid.SampledFrom([]string{"sig", "sig", "sig", "sig", "sig", "sig", "sig", "sig", "sig", "sig", "sig", "sig", "secp-s", "secp-s", "raw", "raw", "raw", "raw"}).Draw(rt, "mode")
+	if mode == "secp-s" {
+		// constructed boundary signature: the region (N/2, 2^255) is ~2^-33 of honest signatures
+		c.Mode, c.Scheme = "secp-s", schemeSecp
+		c.Seed = rapid.SliceOfN(rapid.Byte(), 32, 32).Draw(rt, "nonceSeed")
+		c.Msg = c17MsgGen().Draw(rt, "msg")
+		c.STarget = rapid.IntRange(0, len(c17SecpSTargets)).Draw(rt, "sTarget")
+		c.SDelta = rapid.IntRange(-2, 2).Draw(rt, "sDelta")
+		if c.STarget == len(c17SecpSTargets) {
+			c.STarget = -1
+			c.SRand = rapid.SliceOfN(rapid.Byte(), 32, 32).Draw(rt, "sRand")
+		}
+		return c
+	}
+	if mode == "raw" {
 		c.Mode = "raw"
 		size := 1 + sc.pkLen + sc.sigLen
 		switch rapid.IntRange(0, 9).Draw(rt, "rawClass") {
@@ -564,6 +585,150 @@ func c17Apply(scheme int, op c17Op, pk, sig, msg []byte) (c17Derived, bool) {
 	return d, true
 }
 
+// ------------------------------------------------------------------ constructed secp256r1 boundary signatures
+
+var (
+	secpHalf = new(big.Int).Rsh(secpN, 1) // floor(N/2): the largest accepted s
+	two255   = new(big.Int).Lsh(bigOne, 255)
+	// c17SecpSTargets: values of s around which genuine signatures are constructed
+	c17SecpSTargets = []*big.Int{
+		big.NewInt(1),
+		big.NewInt(3),
+		new(big.Int).Sub(secpHalf, bigOne),
+		new(big.Int).Set(secpHalf),
+		new(big.Int).Add(secpHalf, bigOne),
+		new(big.Int).Add(secpHalf, big.NewInt(3)),
+		new(big.Int).Add(secpHalf, new(big.Int).Lsh(bigOne, 64)),
+		new(big.Int).Add(secpHalf, new(big.Int).Lsh(bigOne, 200)),
+		new(big.Int).Add(secpHalf, new(big.Int).Lsh(bigOne, 222)),
+		new(big.Int).Sub(two255, big.NewInt(3)),
+		new(big.Int).Sub(two255, bigOne),
+		new(big.Int).Set(two255),
+		new(big.Int).Add(two255, bigOne),
+		new(big.Int).Add(two255, new(big.Int).Lsh(bigOne, 200)),
+		new(big.Int).Sub(secpN, big.NewInt(3)),
+		new(big.Int).Sub(secpN, bigOne),
+	}
+)
+
+// c17SecpConstruct returns a public key and a genuine ECDSA signature (r, s) of msg with the
+// requested s: for nonce k, R = kG, r = x(R) mod N, z = sha256(msg) as crypto/secp256r1 hashes
+// it, and private key d = (s*k - z) * r^-1 mod N, so that s = k^-1 (z + r d). ok=false if r or d is 0.
+func c17SecpConstruct(nonceSeed [32]byte, msg []byte, sTarget *big.Int) (pk []byte, r, s, d *big.Int, ok bool) {
+	cv := elliptic.P256()
+	k := new(big.Int).SetBytes(scalarFromSeed(nonceSeed, secpN))
+	rx, _ := cv.ScalarBaseMult(k.Bytes())
+	r = new(big.Int).Mod(rx, secpN)
+	if r.Sign() == 0 {
+		return nil, nil, nil, nil, false
+	}
+	dg := sha256.Sum256(msg)
+	z := new(big.Int).SetBytes(dg[:])
+	s = new(big.Int).Set(sTarget)
+	d = new(big.Int).Mul(s, k)
+	d.Sub(d, z)
+	d.Mul(d, new(big.Int).ModInverse(r, secpN))
+	d.Mod(d, secpN)
+	if d.Sign() == 0 {
+		return nil, nil, nil, nil, false
+	}
+	qx, qy := cv.ScalarBaseMult(d.Bytes())
+	return elliptic.MarshalCompressed(cv, qx, qy), r, s, d, true
+}
+
+func c17RunSecpS(c c17Case, st *vstat.Stats) error {
+	sc := c17Schemes[schemeSecp]
+	ctx := context.Background()
+	if len(c.Seed) != 32 {
+		return fmt.Errorf("fixture: nonce seed must be 32 bytes")
+	}
+	var seed [32]byte
+	copy(seed[:], c.Seed)
+	var target *big.Int
+	region := ""
+	if c.STarget < 0 || c.STarget >= len(c17SecpSTargets) {
+		width := new(big.Int).Sub(two255, secpHalf)
+		width.Sub(width, bigOne) // number of values in (N/2, 2^255)
+		target = new(big.Int).Mod(new(big.Int).SetBytes(c.SRand), width)
+		target.Add(target, secpHalf).Add(target, bigOne)
+	} else {
+		target = new(big.Int).Add(c17SecpSTargets[c.STarget], big.NewInt(int64(c.SDelta)))
+	}
+	if target.Sign() <= 0 {
+		target = big.NewInt(1)
+	}
+	if target.Cmp(secpN) >= 0 {
+		target = new(big.Int).Sub(secpN, bigOne)
+	}
+	switch {
+	case target.Cmp(secpHalf) <= 0:
+		region = "s<=N/2"
+	case target.Cmp(two255) < 0:
+		region = "N/2<s<2^255"
+	default:
+		region = "s>=2^255"
+	}
+	pk, r, s, d, ok := c17SecpConstruct(seed, c.Msg, target)
+	if !ok {
+		st.Skip("secp-constructed:degenerate-r-or-d")
+		st.Case(false, "", "mode=secp-s")
+		return nil
+	}
+	// independent oracle: the standard library agrees that (r, s) and (r, N-s) are genuine signatures of msg
+	qx, qy := elliptic.UnmarshalCompressed(elliptic.P256(), pk)
+	if qx == nil {
+		return fmt.Errorf("fixture: constructed public key does not decompress")
+	}
+	std := &ecdsa.PublicKey{Curve: elliptic.P256(), X: qx, Y: qy}
+	dg := sha256.Sum256(c.Msg)
+	twin := new(big.Int).Sub(secpN, s)
+	if !ecdsa.Verify(std, dg[:], r, s) || !ecdsa.Verify(std, dg[:], r, twin) {
+		return fmt.Errorf("fixture: constructed signature is not genuine according to crypto/ecdsa (d=%x r=%x s=%x)", d, r, s)
+	}
+	// the private key derived this way is an ordinary key: hypersdk's own derivation gives the same public key
+	var dk secp256r1.PrivateKey
+	d.FillBytes(dk[:])
+	if hp := dk.PublicKey(); !bytes.Equal(hp[:], pk) {
+		return fmt.Errorf("secp256r1: PrivateKey(%x).PublicKey()=%x, want %x", d, hp[:], pk)
+	}
+	labels := []string{"mode=secp-s", "secp-constructed-boundary-s", "secp-constructed:" + region}
+	if c.STarget < 0 {
+		labels = append(labels, "secp-constructed:random-in-(N/2,2^255)")
+	}
+	accepted := 0
+	for _, v := range []*big.Int{s, twin} {
+		rb, _ := be32(r)
+		sb, _ := be32(v)
+		raw := append(append(append([]byte{sc.typeID}, pk...), rb...), sb...)
+		au, err := sc.unmarshal(raw)
+		if err != nil {
+			return fmt.Errorf("secp256r1: Unmarshal of a well-formed auth fails: %v", err)
+		}
+		if err := c17CheckDecoded(schemeSecp, raw, au); err != nil {
+			return err
+		}
+		verr := au.Verify(ctx, c.Msg)
+		want := v.Cmp(secpHalf) <= 0
+		if (verr == nil) != want {
+			return fmt.Errorf("secp256r1: genuine signature (crypto/ecdsa accepts it) with s=%x (N/2=%x): Verify accepted=%v, the low-S rule demands accepted=%v; msg=%x pk=%x r=%x (private key %x, twin s=%x)",
+				v, secpHalf, verr == nil, want, c.Msg, pk, r, d, new(big.Int).Sub(secpN, v))
+		}
+		if verr == nil {
+			accepted++
+			if e := c17Canonical(schemeSecp, pk, raw[1+sc.pkLen:]); e != nil {
+				return e
+			}
+		}
+	}
+	if accepted != 1 {
+		return fmt.Errorf("secp256r1: %d of the two encodings (r,s),(r,N-s) verify, want exactly 1", accepted)
+	}
+	canon, _ := json.Marshal(c)
+	st.Case(true, string(canon), labels...)
+	st.Sample(true, map[string]any{"scheme": "secp256r1", "mode": "secp-s", "s": fmt.Sprintf("%x", s), "region": region, "msgLen": len(c.Msg)})
+	return nil
+}
+
 // ------------------------------------------------------------------ oracles
 
 func c17WantAddr(scheme int, pk []byte) codec.Address {
@@ -629,6 +794,9 @@ func c17Canonical(scheme int, pk, sig []byte) error {
 func c17Run(c c17Case, st *vstat.Stats) error {
 	st.Assumption("keys come from each scheme's own derivation of a uniformly drawn 32-byte seed; small-order / identity ed25519 public keys (accepted by ZIP-215 for every message) are outside the domain")
 	st.Assumption("a joint transformation of key AND signature to a different abstract public key (BLS (-pk,-sig); the second recoverable ECDSA key) is a signature of another key, not an alternative encoding: observed and labelled, not asserted")
+	if c.Mode == "secp-s" {
+		return c17RunSecpS(c, st)
+	}
 	sc := c17Schemes[c.Scheme]
 	ctx := context.Background()
 	if c.Mode == "raw" {
@@ -786,7 +954,7 @@ func c17Run(c c17Case, st *vstat.Stats) error {
 	return nil
 }
 
-const c17Rule = "per case one scheme (ed25519/secp256r1/BLS), a key derived from a drawn 32-byte seed through the scheme's own derivation, a message of 0-2000 bytes signed by the real auth factory, then 3-8 derived (pk',sig',msg'): algebraic re-encodings (ed25519 s+k*l, sign bits of R/A, R/A plus an 8-torsion point, (-R,l-s), l-s, s=0/identity/small-order R, y+p; secp256r1 n-s, r+n, s+n, 0/n scalars, n-r, prefix 02<->03 and invalid prefixes, x+p, (s,r); BLS sign/compression/infinity flags of key and signature, infinity encodings, x+p), 1-3 byte mutations of pk||sig, message mutations; each must be rejected and whatever decodes must re-encode identically with actor=sponsor=typeID||sha256(pk); plus Unmarshal(Bytes()) round trip and address = New*Address = factory.Address; a sixth of the cases feed arbitrary bytes to the scheme's Unmarshal; non-trivial = at least one applicable algebraic re-encoding; distinct by the whole case"
+const c17Rule = "per case one scheme (ed25519/secp256r1/BLS), a key derived from a drawn 32-byte seed through the scheme's own derivation, a message of 0-2000 bytes signed by the real auth factory, then 3-8 derived (pk',sig',msg'): algebraic re-encodings (ed25519 s+k*l, sign bits of R/A, R/A plus an 8-torsion point, (-R,l-s), l-s, s=0/identity/small-order R, y+p; secp256r1 n-s, r+n, s+n, 0/n scalars, n-r, prefix 02<->03 and invalid prefixes, x+p, (s,r); BLS sign/compression/infinity flags of key and signature, infinity encodings, x+p), 1-3 byte mutations of pk||sig, message mutations; each must be rejected and whatever decodes must re-encode identically with actor=sponsor=typeID||sha256(pk); plus Unmarshal(Bytes()) round trip and address = New*Address = factory.Address; 15% of the cases feed arbitrary bytes to the scheme's Unmarshal; 10% construct a genuine secp256r1 signature for a chosen s (nonce k, d=(s*k-z)/r; crypto/ecdsa confirms it) at 1, N/2-1..N/2+3, N/2+2^64/2^200/2^222, 2^255-3..2^255+1, N-3..N-1 (+-2) or uniform in (N/2,2^255), and demand Verify accepts (r,s) iff s<=N/2 and exactly one of (r,s),(r,N-s); non-trivial = at least one applicable algebraic re-encoding, or a constructed boundary signature; distinct by the whole case"
 
 func TestC17(t *testing.T) {
 	st := vstat.New(t, "C17", c17Rule)
